@@ -83,10 +83,40 @@ impl Integer {
     #[verifier::external_body] pub fn pow(&self, e: usize) -> (r: Integer) ensures r.v() == pow_int(self.v(), e as nat) { unimplemented!() }
     #[verifier::external_body] pub fn bit(&self, i: usize) -> (r: bool) ensures i == 0 ==> r == (self.v() % 2 != 0) { unimplemented!() }
     #[verifier::external_body] pub fn gcd(&self, o: &Integer) -> (r: UBig) ensures r.v() == gcd_int(self.v(), o.v()) { unimplemented!() }
-    // num_order::NumOrd against machine integers
-    #[verifier::external_body] pub fn num_eq(&self, o: &i64) -> (r: bool) ensures r == (self.v() == *o) { unimplemented!() }
-    #[verifier::external_body] pub fn num_gt(&self, o: &i64) -> (r: bool) ensures r == (self.v() > *o) { unimplemented!() }
-    #[verifier::external_body] pub fn num_lt(&self, o: &i64) -> (r: bool) ensures r == (self.v() < *o) { unimplemented!() }
+}
+// num-order crate: exact cross-type comparisons (assumed exact)
+pub use core::cmp::Ordering;
+pub open spec fn int_cmp(a: int, b: int) -> Ordering { if a < b { Ordering::Less } else if a == b { Ordering::Equal } else { Ordering::Greater } }
+pub uninterp spec fn q_cmp(a: Rational, b: Rational) -> Ordering;      // exact order of the rationals
+pub trait NumOrd<Rhs>: Sized {
+    fn num_eq(&self, o: &Rhs) -> bool;
+    fn num_gt(&self, o: &Rhs) -> bool;
+    fn num_lt(&self, o: &Rhs) -> bool;
+    fn num_partial_cmp(&self, o: &Rhs) -> Option<Ordering>;
+}
+impl NumOrd<i64> for Integer {
+    #[verifier::external_body] fn num_eq(&self, o: &i64) -> (r: bool) ensures r == (self.v() == *o) { unimplemented!() }
+    #[verifier::external_body] fn num_gt(&self, o: &i64) -> (r: bool) ensures r == (self.v() > *o) { unimplemented!() }
+    #[verifier::external_body] fn num_lt(&self, o: &i64) -> (r: bool) ensures r == (self.v() < *o) { unimplemented!() }
+    #[verifier::external_body] fn num_partial_cmp(&self, o: &i64) -> (r: Option<Ordering>) ensures r == Some(int_cmp(self.v(), *o as int)) { unimplemented!() }
+}
+impl NumOrd<Integer> for i64 {
+    #[verifier::external_body] fn num_eq(&self, o: &Integer) -> (r: bool) ensures r == (*self as int == o.v()) { unimplemented!() }
+    #[verifier::external_body] fn num_gt(&self, o: &Integer) -> (r: bool) ensures r == (*self as int > o.v()) { unimplemented!() }
+    #[verifier::external_body] fn num_lt(&self, o: &Integer) -> (r: bool) ensures r == ((*self as int) < o.v()) { unimplemented!() }
+    #[verifier::external_body] fn num_partial_cmp(&self, o: &Integer) -> (r: Option<Ordering>) ensures r == Some(int_cmp(*self as int, o.v())) { unimplemented!() }
+}
+impl NumOrd<Rational> for Integer {
+    #[verifier::external_body] fn num_eq(&self, o: &Rational) -> (r: bool) ensures r == (q_cmp(q_of_int(self.v()), *o) is Equal) { unimplemented!() }
+    #[verifier::external_body] fn num_gt(&self, o: &Rational) -> (r: bool) ensures r == (q_cmp(q_of_int(self.v()), *o) is Greater) { unimplemented!() }
+    #[verifier::external_body] fn num_lt(&self, o: &Rational) -> (r: bool) ensures r == (q_cmp(q_of_int(self.v()), *o) is Less) { unimplemented!() }
+    #[verifier::external_body] fn num_partial_cmp(&self, o: &Rational) -> (r: Option<Ordering>) ensures r == Some(q_cmp(q_of_int(self.v()), *o)) { unimplemented!() }
+}
+impl NumOrd<Integer> for Rational {
+    #[verifier::external_body] fn num_eq(&self, o: &Integer) -> (r: bool) ensures r == (q_cmp(*self, q_of_int(o.v())) is Equal) { unimplemented!() }
+    #[verifier::external_body] fn num_gt(&self, o: &Integer) -> (r: bool) ensures r == (q_cmp(*self, q_of_int(o.v())) is Greater) { unimplemented!() }
+    #[verifier::external_body] fn num_lt(&self, o: &Integer) -> (r: bool) ensures r == (q_cmp(*self, q_of_int(o.v())) is Less) { unimplemented!() }
+    #[verifier::external_body] fn num_partial_cmp(&self, o: &Integer) -> (r: Option<Ordering>) ensures r == Some(q_cmp(*self, q_of_int(o.v()))) { unimplemented!() }
 }
 // `Integer::ONE` (associated const of the opaque type) is rewritten to this nullary shim (R5)
 #[verifier::external_body]
